@@ -20,7 +20,7 @@ class Outcome:
         return {"kind": self.kind, "error": self.error}
 
 
-def solve(game, prune, cpu_s=budget.DEFAULT_CPU_S, max_lines=budget.DEFAULT_LINES, want_copy=True):
+def solve(game, prune, cpu_s=budget.DEFAULT_CPU_S, max_lines=budget.DEFAULT_LINES, want_copy=True, confirm=True):
     """StochasticGame(**deepcopy(game), prune_states=prune).solve() under the two-stage budget."""
 
     def fn():
@@ -28,9 +28,11 @@ def solve(game, prune, cpu_s=budget.DEFAULT_CPU_S, max_lines=budget.DEFAULT_LINE
         SNAP.clear()
         return tad.StochasticGame(prune_states=prune, **g).solve()
 
-    st, val = budget.run_budgeted(fn, cpu_s, max_lines)
+    st, val = budget.run_budgeted(fn, cpu_s, max_lines, confirm)
     if st == "ok":
         return Outcome("ok", val, SNAP.get("next"))
+    if st == "timeout":
+        return Outcome("timeout", error="no result within %.2f s of CPU time (not judged)" % val)
     if st == "diverged":
         return Outcome("diverged", error="no result within %d executed lines" % val)
     e = val
